@@ -76,41 +76,40 @@ def check_graph_leaves(facts, chk, rule):
                           detail='entry/exit recording: values %s ok=%s, gated by compare_samples=%s, compared sets are the two out-edges=%s' % (vals, ok_vals, gated, ok_args))
 
     def seq_codec():
+        # functional: rev_compl(s), DnaSequence::encode(s).decode() / .len() / .get_range(a, b) on strings (either case) - independent
+        # of whether the functions are written with closures or loops
+        from ..absint.interp import StrV
         I = Interp(facts)
         U = 'skalo::utils::'
         bad = []
-        # rev_compl closure and DnaSequence closures: per-character tables
-        cl = facts.closures_of(U + 'rev_compl')
-        if len(cl) != 1:
-            raise AnchorLost('rev_compl closure')
-        for ch, want in zip('ACGT', 'TGCA'):
-            env = Agg('closure:' + cl[0].path, 0, [])
-            envv = RefV(Cell(env, 'env')) if cl[0].local_ty(1).startswith('&') else env
-            r = I.exec_body(cl[0], [envv, BV(32, ord(ch))])
-            if chr(r.val) != want:
-                bad.append(('rev_compl', ch, chr(r.val)))
-        enc = facts.closures_of(U + 'DnaSequence::encode')
-        dec = facts.closures_of(U + 'DnaSequence::decode') + facts.closures_of(U + 'DnaSequence::get_range')
-        if len(enc) != 1 or len(dec) != 2:
-            raise AnchorLost('DnaSequence closures: %d encode, %d decode' % (len(enc), len(dec)))
-        for ch in 'ACGTacgt':
-            env = Agg('closure:' + enc[0].path, 0, [])
-            envv = RefV(Cell(env, 'env')) if enc[0].local_ty(1).startswith('&') else env
-            code = I.exec_body(enc[0], [envv, RefV(Cell(BV(8, ord(ch)), 'nt'))])
-            for d in dec:
-                env2 = Agg('closure:' + d.path, 0, [])
-                envv2 = RefV(Cell(env2, 'env')) if d.local_ty(1).startswith('&') else env2
-                back = I.exec_body(d, [envv2, RefV(Cell(code, 'c'))])
-                bv = back.val if isinstance(back, BV) else None
-                if bv is None or chr(bv) != ch.upper():
-                    bad.append((d.name.split('::')[-1], ch, back))
+        comp = {'A': 'T', 'C': 'G', 'G': 'C', 'T': 'A'}
+        for sq in ('ACGT', 'GATTACA', 'TTTTGC', 'A'):
+            r = I.call_fn(U + 'rev_compl', [RefV(Cell(StrV(list(sq)), 's'))])
+            got = ''.join(c if isinstance(c, str) else chr(c.val) for c in r.chars)
+            if got != ''.join(comp[c] for c in reversed(sq)):
+                bad.append(('rev_compl', sq, got))
+        for sq in ('ACGT', 'acgtACGT', 'GATTACAGATTACA', 'T', ''):
+            d = Cell(I.call_fn(U + 'DnaSequence::encode', [RefV(Cell(StrV(list(sq)), 's'))]), 'dna')
+            dec = I.call_fn(U + 'DnaSequence::decode', [RefV(d)])
+            got = ''.join(c if isinstance(c, str) else chr(c.val) for c in dec.chars)
+            if got != sq.upper():
+                bad.append(('decode', sq, got))
+            ln = I.call_fn(U + 'DnaSequence::len', [RefV(d)])
+            if ln.val != len(sq):
+                bad.append(('len', sq, ln.val))
+            for a_ in range(0, len(sq) + 1):
+                for b_ in range(a_, len(sq) + 1):
+                    g = I.call_fn(U + 'DnaSequence::get_range', [RefV(d), BV(64, a_), BV(64, b_)])
+                    got = ''.join(chr(x.val) for x in g.fields)
+                    if got != sq.upper()[a_:b_]:
+                        bad.append(('get_range', (sq, a_, b_), got))
         return bad
     r = chk.guard(rule, rule + ':sequence-codec', seq_codec)
     if r is not None:
         if r:
             chk.violation(rule, rule + ':sequence-codec', where='skalo::utils', detail='(function, char, got) = %s' % (r[:3],))
         else:
-            chk.ok(rule, rule + ':sequence-codec', 'skalo::utils', 'rev_compl char map; DnaSequence decode/get_range invert encode on A/C/G/T in either case', evals=20)
+            chk.ok(rule, rule + ':sequence-codec', 'skalo::utils', 'rev_compl, DnaSequence encode/decode/len/get_range on strings in either case (all ranges)', evals=200)
 
 
 def run(facts, chk, tier, only=None):
